@@ -1343,8 +1343,6 @@ async def do_sum(
     attribute: str | int | None = None,
     start: V = 0,  # type: ignore
 ) -> V:
-    rv = start
-
     if attribute is not None:
         func = make_attrgetter(environment, attribute)
     else:
@@ -1352,10 +1350,9 @@ async def do_sum(
         def func(x: V) -> V:
             return x
 
-    async for item in auto_aiter(iterable):
-        rv += func(item)
-
-    return rv
+    # Use the builtin like the sync variant does: it never modifies
+    # ``start`` in place and gives the same result for floats.
+    return sum([func(item) async for item in auto_aiter(iterable)], start)  # type: ignore
 
 
 def sync_do_list(value: "t.Iterable[V]") -> "list[V]":
